@@ -6,4 +6,5 @@ Extraction Language OCaml.
 Set Extraction KeepSingleton.
 Extraction "model.ml" extraction_prelude
   compute_stats admissibleb indexed stats_sb stats_sb_why per_iter_count per_iter_sb
-  xq_close xq_eqb column_of all_ops tally_zero.
+  xq_close xq_eqb column_of all_ops tally_zero stored_counts_sb
+  set_counter set_input_counter record_rounds.
